@@ -962,6 +962,18 @@ def battery_provider(ctx, agg, rng, k, kp, want, kcls, other_pub):
               ("local_file_key", lambda: s.sp.get_signature_provider(local_file_key=path, password=pw, **extra))]
     cfg = f"type=file;file_path={path}" + (f";password={pw}" if pw else "")
     makers.append(("sp_cfg", lambda: s.sp.get_signature_provider(sp_cfg=cfg, **extra)))
+    if pw:
+        # the password typed at the prompt instead of being passed (the standard library's getpass answers for the user)
+        def prompted():
+            import getpass
+
+            real = getpass.getpass
+            getpass.getpass = lambda *a, **k: pw
+            try:
+                return s.sp.get_signature_provider(local_file_key=path, **extra)
+            finally:
+                getpass.getpass = real
+        makers.append(("prompt", prompted))
     eff_hash = hname or default_hash(want)
     for how, make in makers:
         cls = [kcls, how, enc_name, "pw" if pw else "nopw", "pss" if pss else ("der-signer" if der_kw else "plain")]
@@ -995,6 +1007,16 @@ def battery_provider(ctx, agg, rng, k, kp, want, kcls, other_pub):
                 continue
             judge_signature(ctx, agg, rng, kp, want, kcls, other_pub, sig, data, eff_hash, scheme, False,
                             "get_signature/" + how, extra_cls=(str(out_enc), "der-signer" if der_kw else ""))
+        # the same provider object set to another hash algorithm: the next signature is made with THAT algorithm
+        if hasattr(type(prov), "hash_alg") and not (pss and how == "sp_cfg"):
+            h2 = core.pick(rng, [h for h in ("sha256", "sha384", "sha512") if h != eff_hash])
+            prov.hash_alg = _hash_enum(h2)
+            data = core.rand_bytes(rng, core.pick(rng, MSG_LENS))
+            sig = prov.get_signature(data)
+            ctx.count("provider_hash_reassigned")
+            judge_signature(ctx, agg, rng, kp, want, kcls, other_pub, sig, data, h2,
+                            ("pss" if pss else "v15") if want["type"] == "rsa" else "raw", False,
+                            "get_signature-after-hash_alg-reassigned/" + how, extra_cls=("None", "der-signer" if der_kw else ""))
     os.remove(path)
 
 
